@@ -1,8 +1,8 @@
 #!/bin/bash
-# Runs every quick check against every behaviour-preserving change under benign/. Needs exclusive use of /repo.
+# Runs every quick check against every behaviour-preserving change under benign/ (or those named). Needs exclusive use of /repo.
 cd "$(dirname "$0")/.."
-for d in benign/benign-*/; do
-  n=$(basename $d)
-  timeout 7200 python3 detection/run_benign.py check $n 2>&1 | grep -E "baseline|alarms| 1 | 2 "
+names="$@"; [ -z "$names" ] && names=$(ls -d benign/benign-* | xargs -n1 basename)
+for n in $names; do
+  timeout 7200 python3 detection/run_benign.py check $n 2>&1 | grep -E "baseline|alarms| 1 | 2 |refusing|does not apply"
   git -C /repo checkout -- . 2>/dev/null
 done
